@@ -136,7 +136,7 @@ def check(tier: str, seed: int, t0: float, build: core.BuildStatus) -> int:
             uni = qgen.Universe(be)
             idiom, tree, fill, _ = fraggen.BACKENDS[be]
             for _ in range(n_frag):
-                src, sx, uses = fraggen.gen(rng, uni, rng.choice([0, 1, 2, 2, 3]))
+                src, sx, uses = fraggen.gen_row(rng, uni, rng.choice([0, 1, 2, 2, 3]))
                 n0 = cv.unique_var_index
                 c = semrun.translate(be, src, None, model)
                 oc.evaluations += 1
@@ -147,19 +147,19 @@ def check(tier: str, seed: int, t0: float, build: core.BuildStatus) -> int:
                         what=f"{be}: fragment query not translated ({c.error or c.note}): {src}",
                         replay={"kind": "fragment", "backend": be, "query": src, "status": c.status, "detail": str(c.error or c.note)}))
                     continue
-                r = model.call("c01.frag", [idiom, tree, fill, sx, n0])
+                r = model.call("c01.fragrow", [idiom, tree, fill, sx, n0])
                 members = [ln.strip() for ln in c.pkg["slots"]["class_decl"]]
                 same = r[0] == "ok" and r[1] == c.qlines and r[2] == members and r[3] == [f"{a}={b}" for a, b in c.prog[2]]
-                if src.count("Count") >= 2 or "Where" in src:
+                if src.count("Count") + src.count("Sum") + src.count("Select(lambda y") >= 2 or "Where" in src:
                     distinct.add((be, src))
                 evs = frag_events(rng, uni, uses, n_events)
                 diffs, unsup = semrun.differential(model, c, uni, evs)
                 # Coq reference `de` vs Python evaluation of the source
                 ref_bad = None
                 for ev in evs:
-                    dr = model.call("c01.denote", [sx, qgen.event_wire(ev)])
+                    dr = model.call("c01.denote_row", [sx, qgen.event_wire(ev)])
                     pr = qgen.reference_event(src, ev, uni)
-                    if dr[0] == "ok" and pr[0] == "rows" and semrun.rows_equal([[dr[1]]], pr[1]):
+                    if dr[0] == "ok" and pr[0] == "rows" and semrun.rows_equal([dr[1]], pr[1]):
                         continue
                     if dr[0] == "fault" and pr[0] == "fault":
                         continue
@@ -249,7 +249,7 @@ def check(tier: str, seed: int, t0: float, build: core.BuildStatus) -> int:
                         samples.append({"kind": "random", "backend": be, "query": src, "events": len(evs)})
         model.close()
     oc.distinct_nontrivial = len(distinct)
-    oc.rule = (f"fragment: {n_frag} generated F0 queries x (atlas, cms_aod), text of the fragment translator compared with the emitted program, "
+    oc.rule = (f"fragment: {n_frag} generated fragment rows (1-3 columns: scalar expressions over Count/Sum, vector columns; bare/tuple/list/dict terminals) x (atlas, cms_aod), text of the fragment translator compared with the emitted program, "
                f"Coq reference vs Python reference, {n_events} events each; known-finding templates x 3 backends; "
                f"random: {n_rand} typed queries per backend (depth 1-4; Select/SelectMany/Where/Count/Sum/Aggregate/First/Range/arithmetic/comparison/and-or-not/conditional/math functions/tuple-list-dict rows/1-D and 2-D columns) "
                f"x {n_events} events (collection sizes 0-4, value lattice with ties, zeros, negatives); non-trivial = at least 3 operators (fragment: two Counts or a Where); distinct by (backend, source)")
